@@ -111,6 +111,26 @@ impl C08 {
     } else if alts.len() > 1 && (gy, gyp, gmp) != exp {
       out.skip("jie_instant_within_0.6s_of_midnight");
     }
+    // the month object reached from the day is the very month of its year's list: same position, same first (Jie) day,
+    // and its day list contains the date (only asserted when no Jie near the date is ambiguous)
+    if alts.len() == 1 && !e.ambiguous_day && c.index_of_jdn(e.day).is_some() && (exp.0 >= 1 && exp.0 <= 9997) && (near || jdn % 6 == 0 || (1729820..=1729900).contains(&jdn)) {
+      let want_idx = ((e.index - 3) / 2).rem_euclid(12);
+      match guard(|| {
+        let mo = sd_idx(c, i).get_sixty_cycle_day().get_sixty_cycle_month();
+        let days = mo.get_days();
+        (mo.get_index_in_year() as i64, ymd(&mo.get_first_day().get_solar_day()), days.len() as i64, days.iter().any(|x| ymd(&x.get_solar_day()) == (y, m, d)))
+      }) {
+        Ok((gi, fd, n, has)) => {
+          let efd = c.ymd(c.index_of_jdn(e.day).unwrap());
+          if gi != want_idx || fd != efd || !has || !(28..=33).contains(&n) {
+            out.fail(env, viol("day", "month_object_reached_from_the_day", case, &k, format!("{} .get_sixty_cycle_day().get_sixty_cycle_month()", c.fmt(i)), format!("index {} first day {} and a day list containing the date", want_idx, fmt_ymd(efd)), format!("index {} first day {} {} days, contains the date: {}", gi, fmt_ymd(fd), n, has)));
+          }
+        }
+        Err(e2) => {
+          out.fail(env, viol("day", "month_object_reached_from_the_day_panics", case, &k, c.fmt(i), "a month".into(), e2));
+        }
+      }
+    }
   }
 
   fn eval_time(&self, env: &Env, out: &mut Out, case: &Case) {
@@ -227,6 +247,15 @@ impl C08 {
         let nx = mo.next(1);
         if nx.get_sixty_cycle().get_index() != ms[j + 1].get_sixty_cycle().get_index() || nx.get_sixty_cycle_year().get_year() as i64 != y {
           out.fail(env, viol("months", "next1", case, &kk, format!("month {} of sexagenary year {} .next(1)", j, y), ms[j + 1].to_string(), nx.to_string()));
+        }
+        // ... and the stepped month (whose source has just been asked for its first day) is the constructed one in every view
+        if let Ok((a, b)) = guard(|| {
+          let fresh = tyme4rs::tyme::sixtycycle::SixtyCycleMonth::from_index(y as isize, j as isize + 1);
+          ((nx.get_index_in_year(), ymd(&nx.get_first_day().get_solar_day()), nx.get_days().len()), (fresh.get_index_in_year(), ymd(&fresh.get_first_day().get_solar_day()), fresh.get_days().len()))
+        }) {
+          if a != b {
+            out.fail(env, viol("months", "stepped_month_differs_from_constructed", case, &kk, format!("month {} of sexagenary year {} .next(1) after get_first_day()", j, y), format!("index {} first day {} {} days", b.0, fmt_ymd(b.1), b.2), format!("index {} first day {} {} days", a.0, fmt_ymd(a.1), a.2)));
+          }
         }
       }
     }
